@@ -104,6 +104,11 @@ class ZorgFileCompiler(ZorgFileListener):
         get_datetime = partial(
             dt.datetime.strptime, ctx.DATE().getText(), "%Y-%m-%d"
         )
+        try:
+            get_datetime()
+        except ValueError:
+            # Looks like a date (e.g. 2024-19-39), but is NOT a calendar date.
+            return
         if (
             self._s.in_note
             and self._s.ids_in_note == 1
@@ -172,16 +177,26 @@ class ZorgFileCompiler(ZorgFileListener):
             if self._s.ids_in_note == 1 and zdt.is_short_date_spec(
                 short_date := ctx.getText()
             ):
-                self._s.modify_date = zdt.from_short_date_spec(short_date)
+                try:
+                    self._s.modify_date = zdt.from_short_date_spec(short_date)
+                except ValueError:
+                    # Six digits that are NOT a calendar date (e.g. 690004)
+                    # are just an ordinary word.
+                    pass
             elif (
                 self._s.ids_in_note == 1
                 or (self._s.ids_in_note == 2 and self._s.modify_date)
             ) and zdt.is_zid(zid := ctx.getText()):
                 self._s.zid = zid
                 zorg_id_date = f"20{zid.split('#')[0]}"
-                self._s.note_date = dt.datetime.strptime(
-                    zorg_id_date, "%Y%m%d"
-                ).date()
+                try:
+                    self._s.note_date = dt.datetime.strptime(
+                        zorg_id_date, "%Y%m%d"
+                    ).date()
+                except ValueError:
+                    # The ZID's date part is NOT a calendar date (e.g.
+                    # 240231#00), so it says nothing about the create date.
+                    pass
 
     def enterInline_prop(
         self, ctx: ZorgFileParser.Inline_propContext
